@@ -68,6 +68,7 @@
 #include "scanners.h"
 #include "stack.h"
 #include "writer.h"
+#include "verif_hooks.h"
 
 
 #define print(x) d_string_append(out, x)
@@ -127,6 +128,7 @@ void mmd_print_char_html(DString * out, char c, bool obfuscate, bool line_breaks
 
 		default:
 			if (obfuscate && ((int) c == (((int) c) & 127))) {
+				MMD6_POINT(MMD6_PT_OBFUSCATE);
 				if (ran_num_next() % 2 == 0) {
 					printf("&#%d;", (int) c);
 				} else {
@@ -2081,6 +2083,7 @@ parse_citation:
 			break;
 
 		default:
+			MMD6_EVENT(MMD6_EV_UNKNOWN_TOKEN, MMD6_W_HTML, t->type);
 			fprintf(stderr, "Unknown token type: %d (%lu:%lu)\n", t->type, t->start, t->len);
 			token_describe(t, source);
 			exit(0);
